@@ -107,7 +107,12 @@ pub fn gen_map(rng: &mut Rng, opts: &GenOpts) -> GenMap {
     writeln!(t, "[Difficulty]").unwrap();
     let keys = if mode == 3 { 1 + rng.below(10) as u32 } else { 0 };
     let cs = if mode == 3 {
-        f64::from(keys)
+        // a key count is an integer in the editor, but any number decodes
+        if rng.chance(1, 8) {
+            f64::from(keys) + *rng.pick(&[0.5, 0.6, -0.4, 0.3, 0.5])
+        } else {
+            f64::from(keys)
+        }
     } else if matches!(shape, Shape::Buzz) {
         one_decimal(rng, 5.6, 10.0)
     } else {
